@@ -18,7 +18,7 @@ from checks import hist, common
 PROP = "C12"
 FUNCTIONS = ["SuccessionDiagram.node_attractor_sets", "SuccessionDiagram.node_attractor_seeds(symbolic_fallback)", "compute_attractors_symbolic",
              "symbolic_attractor_test", "symbolic_attractor_fallback", "SuccessionDiagram.reclaim_node_data"]
-PREFIXES = [(), ("succ",), ("fullbfs",), ("seeds",), ("cands",), ("seeds", "reclaim"), ("succ", "seeds", "reclaim"), ("succ", "skiprem"), ("bfs",)]
+PREFIXES = [(), ("succ",), ("fullbfs",), ("seeds",), ("cands",), ("succ", "cands"), ("seeds", "reclaim"), ("succ", "seeds", "reclaim"), ("succ", "skiprem"), ("bfs",)]
 
 
 def execute(rules, prefix, H, names, symbolic):
@@ -162,6 +162,8 @@ def tasks(tier, seed, selftest=False):
         add("S1C2", p, 15 if q else 900, fine=False, free=True)
     for p in ((), ("succ",), ("seeds",)):
         add("N3", p, 25 if q else 900)
+    for p in ((), ("seeds",)):
+        add("TWOATT3", p, 10 if q else 600)      # a minimal trap space with two attractors
     # skip nodes that hold a motif-avoidant attractor, asked after other nodes were answered: default method and
     # symbolic fallback must agree there too
     for p in (("succ", "skiprem", "seeds"), ("succ", "skiprem")):
